@@ -262,23 +262,29 @@ func softColMain(args []string) {
 	}
 	var alpha []cOp
 	var init cState
-	var hists [][]cOp
-	tlcLines(*gen, func(tag string, js []byte) {
-		switch tag {
-		case "ALPHA":
-			if alpha == nil {
-				must(json.Unmarshal(js, &alpha))
+	var hists, always [][]cOp // always: the histories of the further (small) universes, never sampled away
+	for gi, genFile := range splitList(*gen) {
+		tlcLines(genFile, func(tag string, js []byte) {
+			switch tag {
+			case "ALPHA":
+				if alpha == nil {
+					must(json.Unmarshal(js, &alpha))
+				}
+			case "INIT":
+				must(json.Unmarshal(js, &init))
+			case "S":
+				var s struct {
+					Hist []cOp `json:"hist"`
+				}
+				must(json.Unmarshal(js, &s))
+				if gi == 0 {
+					hists = append(hists, s.Hist)
+				} else {
+					always = append(always, s.Hist)
+				}
 			}
-		case "INIT":
-			must(json.Unmarshal(js, &init))
-		case "S":
-			var s struct {
-				Hist []cOp `json:"hist"`
-			}
-			must(json.Unmarshal(js, &s))
-			hists = append(hists, s.Hist)
-		}
-	})
+		})
+	}
 	if len(alpha) == 0 || len(hists) == 0 || len(init.Srcs) == 0 {
 		infra("incomplete generation output %s", *gen)
 	}
@@ -291,6 +297,7 @@ func softColMain(args []string) {
 		hists = hists[:*sample]
 		stt.Exhaustive = false
 	}
+	hists = append(hists, always...)
 	w := newEvWriter(*out, 40000)
 	variant := func() cVariant {
 		v := cVariant{Impl: "soft", Shift: rng.Intn(len(nonBool)), Table: rng.Intn(3)}
